@@ -371,14 +371,32 @@ def suite_states(rng, tier):
         s.decap("h:3fff01+g:%d:4094" % k)
     s.decap("h:700501deadbeef")
     out.append(s)
-    s = Session("st-wrap")     # a train 65536 bytes too long must not pass the length check
-    s.dec_new(1, 140000, None)
-    s.prov(140000, 0)
-    s.decap("h:a00601000b0800aa")   # total length 11 = 9 + 2
-    for k in range(17):
-        s.decap("h:3fff01+g:%d:4094" % k)
-    s.decap("h:700501deadbeef")
-    out.append(s)
+    # a train exactly 65536 bytes longer than announced, with a CRC that verifies for the announced total
+    # length: the length comparison must be made on natural numbers, not modulo 2^16
+    for lab, lt, lbytes in ((LBL_BC, 0xa0, b""), (LBL_A6, 0x80, b"abcdef")):
+        for extra_first in (1, 7):
+            s = Session("st-wrap-%s-%d" % (lab.kind, extra_first))
+            s.strict = False
+            s.dec_new(1, 140000, None)
+            s.prov(140000, 0)
+            s.dec_reset()
+            first_payload = gen_bytes(900 + extra_first, extra_first)
+            announced_pdu = 9
+            tl = announced_pdu + 2 + len(lbytes)
+            gl = 5 + len(lbytes) + extra_first
+            s.decap("h:%02x%02x01%04x0800%s%s" % (lt, gl, tl, lbytes.hex(), first_payload.hex()))
+            data = bytearray(first_payload)
+            for k in range(16):
+                chunk = gen_bytes(7000 + k, 4094)
+                data += chunk
+                s.decap("h:3fff01+g:%d:4094" % (7000 + k))
+            need = 65536 + announced_pdu - len(data)
+            last = gen_bytes(31337, need)
+            data += last
+            crc = ref_gse_crc(bytes(data), 0x0800, tl, lbytes)
+            egl = 1 + need + 4
+            s.decap("h:%04x01%s%08x" % (0x7000 | egl, last.hex(), crc))
+            out.append(s)
     for r in range(30 if tier == "quick" else 300):
         s = Session("st-refill%d" % r)
         slots = rng.choice([1, 2, 3])
